@@ -12,6 +12,8 @@ pub mod mccfr;
 pub mod search;
 pub mod transport;
 pub mod wasm;
+#[cfg(robopoker_verif)]
+pub mod verif;
 
 /// dimensional analysis types
 type Chips = i16;
